@@ -28,6 +28,7 @@ func init() {
 				NeedCounters: []string{"response-delivered", "stale-discarded", "foreign-to-other-ctx", "expired-protostate", "canceled-by-new-survey", "broadcast-complete", "late-response-discarded"}},
 			{Name: "surveyor-sched-expiry-vs-response", Mode: "sched", Bound: b, Reset: kit.ResetGlobals, Cfg: vsched.Config{EarlyTimers: true}, Body: schedExpiry},
 			{Name: "surveyor-sched-newsurvey-vs-response", Mode: "sched", Bound: b, Reset: kit.ResetGlobals, Body: schedNewSurvey},
+			{Name: "surveyor-shared-message-two-contexts", Mode: "sched", Bound: b, Reset: kit.ResetGlobals, Body: schedSharedMessage},
 			{Name: "xsurveyor-hist", Mode: "hist", Reset: kit.ResetGlobals, Body: func() { rawHist(4) }},
 		}
 	})
@@ -367,6 +368,76 @@ func schedNewSurvey() {
 		kit.Failf("sched-recv2", "Recv on the second survey: done=%v %s / %q, want \"new-response\"", r2.Done(), kit.ErrName(r2.Err), r2.Val)
 	}
 	kit.Observe("%s", kit.ErrName(rc.Err))
+}
+
+// schedSharedMessage: the application sends one message, cloned, as a survey on two contexts
+// (the second SendMsg runs while the first survey may still be waiting in the per-connection
+// queues, connection 0 taking nothing for a while).  Each respondent must see two surveys with two
+// different ids and the same body, and a response is delivered to the context whose id it carries.
+func schedSharedMessage() {
+	w := setup()
+	hold := kit.ChooseFree(2) == 1
+	if hold {
+		w.pipes[0].Hold(true)
+	}
+	m1 := mangos.NewMessage(16)
+	m1.Body = append(m1.Body, "shared-survey"...)
+	m1.Clone() // a second reference to the same message
+	m2 := m1
+	a, b := w.ctxs[0], w.ctxs[1]
+	s1 := kit.Start("SendMsg:sock", func() (interface{}, error) { return nil, a.s.SendMsg(m1) })
+	s2 := kit.Start("SendMsg:ctx1", func() (interface{}, error) { return nil, b.c.SendMsg(m2) })
+	kit.Quiesce()
+	if hold {
+		w.pipes[0].Hold(false)
+		w.pipes[0].Take(10)
+		kit.Quiesce()
+	}
+	if !s1.Done() || s1.Err != nil || !s2.Done() || s2.Err != nil {
+		kit.Failf("shared-send", "SendMsg of a cloned message on two contexts: sock done=%v %s, ctx1 done=%v %s", s1.Done(), kit.ErrName(s1.Err), s2.Done(), kit.ErrName(s2.Err))
+	}
+	wire := w.newWire()
+	var ids [2]uint32
+	for pi, l := range wire {
+		if len(l) != 2 {
+			kit.Failf("shared-broadcast-incomplete", "connection %d saw %d surveys, want the two that were sent", pi, len(l))
+		}
+		x, y := binary.BigEndian.Uint32(l[0].Data), binary.BigEndian.Uint32(l[1].Data)
+		if x == y {
+			kit.Failf("shared-survey-id", "connection %d: both surveys went out under the id %08x (one message, cloned, sent on two contexts)", pi, x)
+		}
+		for _, sm := range l {
+			if string(sm.Data[4:]) != "shared-survey" {
+				kit.Failf("shared-survey-body", "connection %d: survey body %q", pi, sm.Data[4:])
+			}
+		}
+		if pi == 0 {
+			ids = [2]uint32{x, y}
+		} else if !(ids == [2]uint32{x, y} || ids == [2]uint32{y, x}) {
+			kit.Failf("shared-survey-id", "the two connections saw different ids: %08x/%08x and %08x/%08x", ids[0], ids[1], x, y)
+		}
+	}
+	// answer each id once: each context gets exactly the answer to its own survey
+	got := map[string]string{}
+	for i, id := range ids {
+		h := make([]byte, 4)
+		binary.BigEndian.PutUint32(h, id)
+		w.pipes[i].Deliver(append(h, fmt.Sprintf("answer-to-%08x", id)...))
+	}
+	kit.Quiesce()
+	for _, m := range []*mctx{a, b} {
+		m := m
+		c := kit.Start("Recv:"+m.name, func() (interface{}, error) { x, err := m.recvCall(); return string(x), err })
+		kit.Quiesce()
+		if !c.Done() || c.Err != nil {
+			kit.Failf("shared-no-answer", "%s: its survey was answered, Recv: done=%v %s", m.name, c.Done(), kit.ErrName(c.Err))
+		}
+		got[m.name] = c.Val.(string)
+	}
+	if got["sock"] == got["ctx1"] {
+		kit.Failf("shared-answer-misrouted", "both contexts received %q", got["sock"])
+	}
+	kit.Observe("hold=%v", hold)
 }
 
 // rawHist: a raw surveyor passes surveys (with the header the application supplies) to every
